@@ -12,10 +12,13 @@ from vlib import runner
 ID = "C06"
 MODULE = "PotasscoVerif.Props.C06"
 THEOREMS = ["PotasscoVerif.C06.C06_count_equiv", "PotasscoVerif.C06.C06_count_only_if_uniform", "PotasscoVerif.C06.directive_enc", "PotasscoVerif.C06.apply_dir",
-            "PotasscoVerif.C06.C06_statement_count", "PotasscoVerif.C06.C06_total", "PotasscoVerif.C06.C06_rule_shape", "PotasscoVerif.C06.C06_name_lookup"]
-PARTIAL = {"C06_faithful (parse back)": "that a parser of the ground syntax recovers every statement from the rendered text is decided by the reference parser run on the "
-           "implementation's bytes (oracle) and by model == implementation; proved are the satisfaction equivalence of the sum→count rewriting, the one-line-per-directive "
-           "count, totality, the shape of rule lines and the name lookup"}
+            "PotasscoVerif.C06.C06_statement_count", "PotasscoVerif.C06.C06_total", "PotasscoVerif.C06.C06_rule_shape", "PotasscoVerif.C06.C06_name_lookup",
+            "PotasscoVerif.C06.write_plain", "PotasscoVerif.C06.C06_parse_back"]
+EXTRA_MODULES = ["PotasscoVerif.Props.C06p"]
+PARTIAL = {"C06_faithful (parse back) beyond C06_parse_back": "C06_parse_back proves parse-back (by the library's own reader model) for steps of rules with normal bodies, #project, #external, #assume, "
+           "#heuristic, #edge, and #minimize / weight rules with at most one aggregate element, over unnamed atoms; for aggregates with two or more elements (written with ';' between elements, which the library's reader does not accept), named atoms, #show statements, theory atoms "
+           "and several steps, that a parser of the ground syntax recovers every statement is decided by the reference parser run on the implementation's bytes (oracle) and by model == implementation; "
+           "proved there are the satisfaction equivalence of the sum→count rewriting, the one-line-per-directive count, totality, the shape of rule lines and the name lookup"}
 BSIZES = (4096,)
 RULE = ("programs of 0..12 directives per step over 1..3 steps (incremental or not) through the AbstractProgram interface: rules with empty/one/many head atoms, normal bodies, "
         "sums with no literals / zero weights / equal weights / mixed weights / bounds <= 0, huge, unreachable; empty and non-empty minimize/project/assume lists; outputs naming "
@@ -31,7 +34,12 @@ LEVEL_TEXT = ("C06_count_equiv: for EVERY bound, weight w > 0 and number of true
               "satisfaction condition as the sum; C06_count_only_if_uniform: the rewriting happens only when all weights are equal and positive (so zero and mixed weights stay sums: no "
               "division by zero); directive_enc + apply_dir + C06_statement_count: every directive call appends exactly the words of its directive, the writer's own cursor reads them back, and a step's text is exactly one line per buffered directive, in order, each being the stated text of that directive (all ten kinds; empty lists and aggregates keep their braces), and nothing else; C06_total: no call sequence without theory calls makes the writer fail; "
               "C06_rule_shape: a rule line is head + ' :- ' + body + '.' with the stated separators, also for empty heads/bodies; C06_name_lookup: the last name given to an atom is the one "
-              "printed, unnamed atoms print as x_<n>. Parse-back of whole texts: reference parser on the implementation's bytes + model == implementation.")
+              "printed, unnamed atoms print as x_<n>. "
+              "C06_parse_back (Props/C06p.lean) composes the writer model with the READER model of C10: for EVERY step made of rules with disjunctive or choice heads (also empty) and normal bodies (also empty), "
+              "#project, #external (all four values), #assume, #heuristic (all modifiers, any bias, priority, condition), #edge directives, and #minimize statements / weight rules with no or one aggregate element, over unnamed atoms — any number, any list lengths — "
+              "TextIn.read (TextOut.write step).out delivers exactly the calls that were rendered, in order, without an error (write_plain: the text is one grammar line of the reader per directive). "
+              "The check replays this on the code: the bytes the real writer produced for such steps are read by the real AspifTextInput and by its model and must give back the rendered calls. "
+              "Parse-back of the other texts: reference parser on the implementation's bytes + model == implementation.")
 LEVEL_NOTE = ("Partial proof + correspondence (~4k quick / 100k thorough programs) + reference-parser oracle. Trusted: Lean kernel+axioms, harness, props/text_ref.py, generator in props/c06.py. "
               "D5, D6 repaired (fix: commits); D8 recorded as known finding.")
 
@@ -127,16 +135,19 @@ class Gen:
         else: ws.append("TA,%d,%d,%s" % (atom, t, progs.lst(elems)))
         return ws, (t, estruct, guard)
 
-def gen_case(rng):
+def gen_case(rng, fragment=False):
     g = Gen(rng)
     nsteps = rng.choice([1, 1, 2, 3]); inc = nsteps > 1 or rng.random() < 0.2
+    if fragment: nsteps = 1; inc = False; g.names = {}      # the fragment the library's own reader reads back (Props/C06p.lean)
     steps = []
     next_theory_atom = g.natoms + 1
     for si in range(nsteps):
         st = []
         for _ in range(rng.choice([0, 1, 2, 4, 7, 12])):
-            k = rng.choice(["R", "R", "R", "S", "S", "S", "M", "P", "O", "X", "A", "H", "G", "T", "TB"])
-            if k == "R": st.append(("R", rng.randint(0, 1), g.atoms(), g.lits()))
+            k = rng.choice(["R", "R", "R", "S", "S", "S", "M", "P", "O", "X", "A", "H", "G", "T", "TB"]) if not fragment else rng.choice(["R", "R", "R", "P", "X", "A", "H", "G", "S1", "M1"])
+            if k == "S1": st.append(("S", rng.randint(0, 1), g.atoms(), g.i32(), rng.choice([[], [(g.lit(), 1)]])))
+            elif k == "M1": st.append(("M", g.i32(), rng.choice([[], [(g.lit(), rng.choice([1, -1, 2, I32, -I32 - 1, 7]))]])))
+            elif k == "R": st.append(("R", rng.randint(0, 1), g.atoms(), g.lits()))
             elif k == "S": st.append(("S", rng.randint(0, 1), g.atoms(), g.i32(), g.wlits()))
             elif k == "M": st.append(("M", g.i32(), g.wlits(True)))
             elif k == "P": st.append(("P", g.atoms()))
@@ -204,9 +215,33 @@ def t_struct(terms, i, nested):
             return ("flat", items)
     return ("fun", nm, sub)
 
+def in_reader_fragment(c):
+    """Props/C06p.lean (C06_parse_back): one non-incremental step of rules with normal bodies, #project, #external, #assume, #heuristic, #edge
+    over unnamed atoms, numbers the reader takes back"""
+    if c["inc"] or len(c["steps"]) != 1: return False
+    for s in c["steps"][0]:
+        if s[0] not in ("R", "P", "X", "A", "H", "G", "S", "M"): return False
+        if s[0] == "H" and s[4] > I32: return False
+        # aggregates: no element, or one (weight 1 in a rule — written as the count —, non-zero in #minimize)
+        if s[0] == "S" and not (len(s[4]) == 0 or (len(s[4]) == 1 and s[4][0][1] == 1)): return False
+        if s[0] == "M" and not (len(s[2]) == 0 or (len(s[2]) == 1 and s[2][0][1] != 0)): return False
+    return True
+
 def evaluate(ctx, cases):
     lines = ["tw " + " ".join(words(c)) for c in cases]
     impl = ctx.impl(lines); model = ctx.model(lines)
+    # second stage for the fragment of C06_parse_back: the bytes the real writer produced are read by the real AspifTextInput (and by its model):
+    # both must deliver exactly the calls that were rendered
+    frag = [k for k, c in enumerate(cases) if in_reader_fragment(c) and isinstance(impl[k], str) and not impl[k].startswith("EXC")]
+    l2 = ["tr C " + (impl[k] or "-") for k in frag]
+    i2 = ctx.impl(l2); m2 = ctx.model(l2)
+    for k, l, i, m in zip(frag, l2, i2, m2):
+        ctx.dist["read back by AspifTextInput"] += 1
+        want = " ".join(words(cases[k])) + " OK"
+        if not isinstance(i, str): ctx.fail("C06:crash", "crash / sanitizer abort while the library's reader reads the rendered text", cases[k], {"stderr": i[2][-1500:]}); continue
+        if i != want: ctx.fail("C06:reader-parse-back", "the library's own reader does not read the rendered text back as the calls that were rendered", cases[k], {"text": l[5:600], "got": i[:600], "want": want[:600]})
+        ctx.compared += 1
+        if i != m: ctx.disagree("AspifTextInput(rendered text)", cases[k], i[:600], m[:600])
     for c, l, i, m in zip(cases, lines, impl, model):
         ctx.count()
         ndir = sum(len(s) for s in c["steps"])
@@ -329,7 +364,7 @@ def wide_atom(n):
 
 def generate(ctx):
     n = {"quick": 4000, "thorough": 100000}[ctx.tier]
-    return [gen_case(ctx.rng) for _ in range(n)]
+    return [gen_case(ctx.rng, ctx.rng.random() < 0.2) for _ in range(n)]
 
 def shrink_candidates(c):
     res = []
